@@ -12,7 +12,8 @@ of a record that is created by the transaction. Hypotheses name the shape (type,
 * plain payments ........ `plain_send_effects` (NORMAL/TRANSFER/CALL to an account without code), `self_send_effects`
 * staking ............... `stake_effects`, `unstake_effects`, `vote_effects`
 * names ................. `nameCreate_effects`, `nameUpdate_effects`, `setOwner_effects`
-* VM transactions ....... `vm_effects` (call of a contract, DEPLOY, REDEPLOY, FEEDELEGATION) over `vmWorld`
+* VM transactions ....... `vm_effects` (call of a contract, DEPLOY, REDEPLOY, FEEDELEGATION) over `vmWorld`;
+                          `own_vm_effects` (a contract account's tx to itself, `receiver = sender`) over `ownVmWorld`
 * MULTICALL ............. `multicall_not_applied` (the stub VM has no multicall code) -/
 
 namespace Aergo.Ledger
@@ -902,5 +903,142 @@ theorem vm_effects {c : Ctx} {w : World} {bp : Nat} {tx : Tx} {res : Result}
           have hnf' : tx.type ≠ .feeDelegation := by
             intro e; exact hnf e
           simpa [hnf'] using this
+
+/-! ### a contract account's transaction to itself (`receiver = sender`) -/
+
+theorem runXfers_exact_own {id : Addr} {xs : List (Addr × Nat)} :
+    ∀ {snd rcv : Acct} {w : World} {third : Bool} {sa ra : Acct} {w' : World} {t' : Bool},
+      runXfers id id snd rcv w third xs = .ok sa ra w' t' →
+      sentOut id xs ≤ rcv.bal ∧ sa = snd ∧
+      ra = { rcv with bal := rcv.bal - sentOut id xs } ∧
+      w' = creditThirds id id w xs := by
+  induction xs with
+  | nil =>
+    intro snd rcv w third sa ra w' t' h
+    simp [runXfers] at h
+    obtain ⟨rfl, rfl, rfl, _⟩ := h
+    simp [sentOut, creditThirds]
+  | cons x xs ih =>
+    obtain ⟨t, amt⟩ := x
+    intro snd rcv w third sa ra w' t' h
+    unfold runXfers at h
+    by_cases h1 : t = id
+    · simp only [h1, if_true] at h
+      have := ih h
+      simpa [sentOut, creditThirds, h1] using this
+    · simp only [h1, if_false] at h
+      by_cases h2 : rcv.bal < amt
+      · simp [h2] at h
+      · simp only [h2, if_false] at h
+        have hle : amt ≤ rcv.bal := Nat.le_of_not_lt h2
+        obtain ⟨q1, q2, q3, q4⟩ := ih h
+        simp only [] at q1
+        refine ⟨?_, q2, ?_, ?_⟩
+        · simp [sentOut, h1]; omega
+        · rw [q3]; simp [sentOut, h1]; omega
+        · rw [q4]; simp [creditThirds, h1, World.bal]
+
+/-- the VM on a record holding code (no deploy), reporting no error: the script ran to its end -/
+theorem vmCall_code_ok {w : World} {tx : Tx} {snd rcv : Copy} {isFD : Bool} {base : Nat} {o : ExecOut}
+    (h : vmCall w tx snd rcv isFD base = o) (he : o.err = none) (hd : rcv.deploy = false) (hc : rcv.cur.code = true) :
+    tx.script.err = .ok ∧
+    ∃ sa ra w' t',
+      runXfers snd.id rcv.id snd.cur rcv.cur w false tx.script.xfers = .ok sa ra w' t' ∧
+      o.snd = { snd with cur := sa } ∧ o.rcv = { rcv with cur := ra } ∧
+      o.w = w'.stage rcv.id { creator := none, sets := tx.script.sets, dels := tx.script.dels } ∧
+      o.fee = base + tx.script.fee ∧ o.fee ≤ (if isFD then ra.bal else sa.bal) := by
+  unfold vmCall at h
+  simp only [hd, hc, Bool.false_eq_true, if_false, if_true] at h
+  split at h
+  · subst h; simp at he
+  · split at h
+    · subst h; simp at he
+    · subst h; simp at he
+  · subst h; simp at he
+  · subst h; simp at he
+  · rename_i herr
+    split at h
+    · subst h; simp at he
+    · rename_i sa ra w' t' hx
+      by_cases hfee : (if isFD then ra.bal else sa.bal) < base + tx.script.fee
+      · rw [if_pos hfee] at h
+        subst h; simp at he
+      · rw [if_neg hfee] at h
+        subst h
+        exact ⟨herr, sa, ra, w', t', hx, rfl, by simp [hd], rfl, rfl, Nat.le_of_not_lt hfee⟩
+
+/-- the world after a successful VM transaction of a contract account to itself (`receiver = sender`, sent
+under a name whose destination is the contract): the amount does not move; third-party credits in script
+order, the storage writes staged, ONE record: − what the script sent out − the fee, the tx nonce -/
+def ownVmWorld (w : World) (tx : Tx) (fee : Nat) : World :=
+  let s := tx.sender
+  let w1 := creditThirds s s w tx.script.xfers
+  let w2 := w1.stage s { creator := none, sets := tx.script.sets, dels := tx.script.dels }
+  w2.put s (({ w.acct s with bal := w.bal s - sentOut s tx.script.xfers - fee } : Acct).setNonce tx.nonce)
+
+theorem own_vm_effects {c : Ctx} {w : World} {bp : Nat} {tx : Tx} {res : Result}
+    (h : executeTx c w bp tx = res) (hg : tx.type ≠ .governance) (hm : tx.type ≠ .multicall)
+    (hrd : tx.type ≠ .redeploy) (hr : tx.recipient = some tx.sender) (hcode : (w.acct tx.sender).code = true)
+    (hs : res.outcome = .success) :
+    tx.script.err = .ok ∧
+    sentOut tx.sender tx.script.xfers + (txBaseFee c tx.payloadLen + tx.script.fee) ≤ w.bal tx.sender ∧
+    res.w = ownVmWorld w tx (txBaseFee c tx.payloadLen + tx.script.fee) ∧
+    res.bp = bp + (txBaseFee c tx.payloadLen + tx.script.fee) := by
+  -- every branch ends in finishOwn (executeOwn ..)
+  have key : ∀ isFD, finishOwn w bp tx .success (executeOwn c w tx (w.getCopy tx.sender) isFD) = res →
+      tx.script.err = .ok ∧
+      sentOut tx.sender tx.script.xfers + (txBaseFee c tx.payloadLen + tx.script.fee) ≤ w.bal tx.sender ∧
+      res.w = ownVmWorld w tx (txBaseFee c tx.payloadLen + tx.script.fee) ∧
+      res.bp = bp + (txBaseFee c tx.payloadLen + tx.script.fee) := by
+    intro isFD hfin
+    have herr := finishOwn_success_err (hfin ▸ hs)
+    generalize hoo : executeOwn c w tx (w.getCopy tx.sender) isFD = o at hfin herr
+    unfold executeOwn at hoo
+    simp only [] at hoo
+    split at hoo
+    · subst hoo; simp at herr
+    · rename_i hsk
+      exact absurd hsk (checkExecution_not_skip (Or.inr (by simpa using hcode)))
+    · split at hoo
+      · subst hoo; simp at herr
+      · obtain ⟨e1, sa, ra, w', t', hx, e3, e4, e5, e6, e7⟩ :=
+          vmCall_code_ok hoo herr (by simp) (by simpa using hcode)
+        simp only [getCopy_id, getCopy_cur] at hx e5
+        obtain ⟨x1, x2, x3, x4⟩ := runXfers_exact_own hx
+        simp only [if_true] at e7
+        have hb : (w.acct tx.sender).bal = w.bal tx.sender := rfl
+        rw [x3] at e7
+        simp only [] at e7
+        unfold finishOwn at hfin
+        simp only [herr] at hfin
+        subst hfin
+        refine ⟨e1, by rw [e6] at e7; omega, ?_, by simp [successBranch, e6]⟩
+        have hfee : o.fee ≤ ra.bal := by rw [x3]; exact e7
+        simp only [successBranch, e4, e5, e6, Copy.subBalance, Copy.setBal, getCopy_id, ne_eq, not_true_eq_false,
+          if_false, absSub]
+        rw [e6] at hfee
+        simp only [hfee, if_true]
+        rw [x3, x4]
+        simp [ownVmWorld, World.bal, Acct.setNonce]
+  have hmk : mkReceiver w tx = .ok (w.getCopy tx.sender, .success) := by
+    simp [mkReceiver, hr, hrd]
+  unfold executeTx at h
+  simp only [] at h
+  split at h
+  · subst h; simp at hs
+  · split at h
+    · subst h; simp at hs
+    · rw [if_neg hm, hmk] at h
+      simp only [hr, hrd, decide_true, ne_eq, not_false_eq_true, Bool.and_self, if_true] at h
+      split at h
+      · rename_i hty; exact absurd hty hg
+      · split at h
+        · subst h; simp at hs
+        · split at h
+          · subst h; simp at hs
+          · split at h
+            · subst h; simp at hs
+            · exact key true h
+      · exact key false h
 
 end Aergo.Ledger
